@@ -74,6 +74,7 @@ var gtBigint = map[string]struct {
 }{
 	"One": {nil, "*big.Int"}, "Zero": {nil, "*big.Int"}, "Clone": {[]string{"*big.Int"}, "*big.Int"},
 	"Equal": {[]string{"*big.Int", "*big.Int"}, "bool"}, "EqualInt64": {[]string{"*big.Int", "int"}, "bool"},
+	"IsZero": {[]string{"*big.Int"}, "bool"}, "IsNonZero": {[]string{"*big.Int"}, "bool"},
 }
 
 // math/big value-producing methods (the receiver's old value is irrelevant) and observers
@@ -308,6 +309,23 @@ func (t *gotr) call(v *ast.CallExpr) (string, string) {
 	switch f := v.Fun.(type) {
 	case *ast.Ident:
 		switch f.Name {
+		case "uint":
+			if len(v.Args) == 1 {
+				x, xt := t.expr(v.Args[0])
+				if xt == "int" {
+					// int -> uint wraps for negative values in Go; the translated functions only convert
+					// values they have just established to be non-negative (`goUint` panics otherwise,
+					// so a tie theorem cannot be proved about a wrapped value)
+					return "(← goUint " + x + ")", "uint"
+				}
+			}
+		case "int":
+			if len(v.Args) == 1 {
+				x, xt := t.expr(v.Args[0])
+				if xt == "uint" {
+					return "(Int.ofNat " + x + ")", "int"
+				}
+			}
 		case "new":
 			if len(v.Args) == 1 && Src(t.fset, v.Args[0]) == "big.Int" {
 				return "(bNewInt 0)", "*big.Int"
@@ -408,6 +426,14 @@ func (t *gotr) call(v *ast.CallExpr) (string, string) {
 			}
 		}
 		if c, ok := f.X.(*ast.CallExpr); ok && Src(t.fset, c) == "new(big.Int)" {
+			if f.Sel.Name == "Div" {
+				a := t.args(v, []string{"*big.Int", "*big.Int"})
+				return "(← bDiv " + strings.Join(a, " ") + ")", "*big.Int"
+			}
+			if f.Sel.Name == "Rsh" {
+				a := t.args(v, []string{"*big.Int", "uint"})
+				return "(bRsh " + strings.Join(a, " ") + ")", "*big.Int"
+			}
 			if gtBigValue[f.Sel.Name] {
 				a := t.args(v, gtBigArgs(f.Sel.Name))
 				return "(b" + f.Sel.Name + " " + strings.Join(a, " ") + ")", "*big.Int"
@@ -415,6 +441,9 @@ func (t *gotr) call(v *ast.CallExpr) (string, string) {
 		}
 		// method of a translated type on a value
 		recv, rty := t.expr(f.X)
+		if rty == "*big.Int" && f.Sel.Name == "Sign" && len(v.Args) == 0 {
+			return "(bSign " + recv + ")", "int"
+		}
 		if rty == "*big.Int" && f.Sel.Name == "BitLen" && len(v.Args) == 0 {
 			return "(bBitLen " + recv + ")", "int"
 		}
@@ -612,6 +641,25 @@ func (t *gotr) stmt(s ast.Stmt, ind string) string {
 				}
 			}
 		}
+		// a, b := x, y (every right-hand side is evaluated before any name is bound)
+		if v.Tok == token.DEFINE && len(v.Lhs) == len(v.Rhs) && len(v.Lhs) > 1 {
+			out, names := "", []string{}
+			for i, r := range v.Rhs {
+				e, ty := t.expr(r)
+				n := v.Lhs[i].(*ast.Ident).Name
+				if n == "_" {
+					continue
+				}
+				out += ind + "let " + n + "_new : " + t.leanType(s, ty) + " := " + e + "\n"
+				names = append(names, n+":"+ty)
+			}
+			for _, nt := range names {
+				p := strings.SplitN(nt, ":", 2)
+				t.define(s, p[0], p[1])
+				out += ind + t.letKw(p[0]) + p[0] + " : " + t.leanType(s, p[1]) + " := " + p[0] + "_new\n"
+			}
+			return out
+		}
 		// x, y := recv.M(..) with M a pointer-receiver method, or a multi-result call
 		if len(v.Rhs) == 1 && v.Tok == token.DEFINE {
 			if callS, g, recv, ok := t.ptrCall(v.Rhs[0]); ok && len(v.Lhs) == len(g.results) {
@@ -715,6 +763,11 @@ func (t *gotr) stmt(s ast.Stmt, ind string) string {
 			}
 		}
 	case *ast.ExprStmt:
+		if c, ok := v.X.(*ast.CallExpr); ok {
+			if id, ok := c.Fun.(*ast.Ident); ok && id.Name == "panic" {
+				return ind + "goPanic\n"
+			}
+		}
 		// v.Add(a, b) and friends: the local v is rebound to the value
 		if c, ok := v.X.(*ast.CallExpr); ok {
 			if sel, ok := c.Fun.(*ast.SelectorExpr); ok && gtBigValue[sel.Sel.Name] {
@@ -903,7 +956,7 @@ func (t *gotr) loop(s ast.Stmt, rest []ast.Stmt, ind string, tail string) string
 				t.fail(s, "loop counter used outside the loop header")
 			}
 			callArg = counter
-		case init != nil && init.Tok == token.DEFINE && len(init.Lhs) == 1 && len(init.Rhs) == 1 && cond != nil && cond.Op == token.LSS && Src(t.fset, cond.X) == Src(t.fset, init.Lhs[0]) && post != nil && post.Tok == token.INC && Src(t.fset, post.X) == Src(t.fset, init.Lhs[0]):
+		case init != nil && init.Tok == token.DEFINE && len(init.Lhs) == 1 && len(init.Rhs) == 1 && cond != nil && (cond.Op == token.LSS || cond.Op == token.LEQ) && Src(t.fset, cond.X) == Src(t.fset, init.Lhs[0]) && post != nil && post.Tok == token.INC && Src(t.fset, post.X) == Src(t.fset, init.Lhs[0]):
 			// for i := A; i < B; i++ { .. }: i is not assigned in the body and B does not change
 			idxName = Src(t.fset, init.Lhs[0])
 			a, aty := t.expr(init.Rhs[0])
@@ -918,6 +971,9 @@ func (t *gotr) loop(s ast.Stmt, rest []ast.Stmt, ind string, tail string) string
 			}
 			idxStart = a
 			callArg = "(Int.toNat (" + b + " - " + a + "))"
+			if cond.Op == token.LEQ {
+				callArg = "(Int.toNat ((" + b + " + 1) - " + a + "))"
+			}
 		case init != nil && init.Tok == token.DEFINE && len(init.Lhs) == 2 && len(init.Rhs) == 2 && cond != nil && cond.Op == token.LEQ && Src(t.fset, cond.X) == Src(t.fset, init.Lhs[0]) && Src(t.fset, cond.Y) == Src(t.fset, init.Lhs[1]) && v.Post == nil:
 			// for l, r := A, B; l <= r; { .. }: run with fuel r-l+1 and the condition re-checked;
 			// running out of fuel with the condition still true yields `goDiverge`
@@ -1256,7 +1312,7 @@ func (t *gotr) function(key string, fd *ast.FuncDecl) {
 	loopVars = nil
 	t.push()
 	params := []string{}
-	if fd.Recv != nil {
+	if fd.Recv != nil && len(fd.Recv.List[0].Names) == 1 {
 		r := fd.Recv.List[0]
 		ty := tyOf(t.fset, r.Type)
 		t.define(fd, r.Names[0].Name, ty)
